@@ -252,17 +252,20 @@ def compare(ctx, cases, results, what, decode='min'):
     what = what if decode == 'min' else what + f' (decode level {decode})'
     for c, (impl, model, spec, st) in zip(cases, results):
         kind, mode = c[0], c[1]
-        if mode in ('stop', 'cancel') and impl != spec:
+        judged = mode in ('stop', 'cancel') or (mode == 'resume' and spec != '-')     # resume: RTU across port re-opens (C06_reopen)
+        if judged and impl != spec:
             n_spec += 1
             if n_spec == 1:
                 def fails(cs):
                     return [(i != s) for (i, m, s, _) in evaluate(ctx, cs, decode)]
                 small = vlib.shrink_batch(c, fails, shrink_candidates)
                 (i2, m2, s2, _), = evaluate(ctx, [small], decode)
-                mtag = '.cancel' if small[1] == 'cancel' else ''
+                mtag = '.cancel' if small[1] == 'cancel' else '.reopen' if small[1] == 'resume' else ''
                 ctx.violation(f'{kind}{mtag}{tag}.frames-differ-from-spec.{ending_class(s2)}',
                               f'{what}: the reader delivers other frames / another error than the stream prescribes'
-                              + (' when waiting next_frame calls are abandoned and re-entered between chunks' if mtag else '') + f': impl={i2[:200]} spec={s2[:200]}',
+                              + (' when waiting next_frame calls are abandoned and re-entered between chunks' if mtag == '.cancel' else
+                                 ' when it is polled again after a framing error (RTU server across a port re-open): something is delivered that no clean parse of the remaining stream yields' if mtag else '')
+                              + f': impl={i2[:200]} spec={s2[:200]}',
                               {'cases': [case_to_json(small)], 'impl': i2, 'spec': s2, 'model': m2, 'original_case': case_to_json(c),
                                'harness_line': to_line(small) + ('' if decode == 'min' else f'   (--decode {decode})'), 'decode': decode})
         elif impl != model:
@@ -275,7 +278,7 @@ def compare(ctx, cases, results, what, decode='min'):
                 ctx.violation(f'{kind}.{mode}{tag}.model-differs-from-impl',
                               f'{what}: implementation and model disagree: impl={i2[:200]} model={m2[:200]}',
                               {'cases': [case_to_json(small)], 'impl': i2, 'model': m2, 'spec': s2, 'original_case': case_to_json(c),
-                               'harness_line': to_line(small), 'decode': decode}, no_failing_input=(mode != 'resume'))
+                               'harness_line': to_line(small), 'decode': decode}, no_failing_input=True)
         elif st.get('offered', '') != st.get('model_offered', '') and 'PANIC' not in impl:
             # same frames, but the ReadBuffer offered other amounts of space than the model's begin/end indices imply
             n_buf += 1
